@@ -45,7 +45,7 @@ Offer(rs, d, from) ==
      ELSE [froms |-> {from}, just |-> j, inring |-> rs.pub[d].in_ring, pending |-> TRUE]
 NoVisit == [open |-> FALSE, claim |-> FALSE, gappolls |-> 0, appreqs |-> 0, tok2 |-> FALSE]
 NoPass == [by |-> -1, to |-> -1, n |-> 0]
-NoWatch == [by |-> -1, to |-> -1, heard |-> FALSE]
+NoWatch == [by |-> -1, to |-> -1, heard |-> FALSE, t |-> 0]
 NoRot == [cur |-> {}, prev |-> {}, prev2 |-> {}, n |-> 0, started |-> FALSE, claimed |-> FALSE, ok |-> FALSE]
 
 Stations(cfg) == ToSet(cfg.stations)
@@ -62,7 +62,7 @@ RuleInit(cfg) ==
    since |-> [s \in St |-> 0], online |-> {},
    pub |-> [s \in St |-> NoView], pre |-> [s \in St |-> NoView],
    grant |-> [s \in St |-> NoGrant],
-   offered |-> [s \in St |-> {}], selfOffer |-> [s \in St |-> FALSE], selfSeen |-> -1, envSince |-> 0, rogue |-> FALSE, unread |-> 0,
+   offered |-> [s \in St |-> {}], selfOffer |-> [s \in St |-> FALSE], selfSeen |-> -1, envSince |-> 0, pasTaint |-> FALSE, rogue |-> FALSE, unread |-> 0,
    pas |-> NoPass,
    visit |-> [s \in St |-> NoVisit],
    recvPrev |-> [s \in St |-> -1], recvCur |-> [s \in St |-> -1],
@@ -118,7 +118,7 @@ NewVisit(rs, s, claim, tok2, t) ==
       missed == full /\ ~(GapSet(s, ns, hsa) \subseteq rs.cadPolled[s])
   IN [rs EXCEPT !.recvPrev[s] = rs.recvCur[s], !.recvCur[s] = t,
                 !.visit[s] = [open |-> TRUE, claim |-> claim, gappolls |-> 0, appreqs |-> 0, tok2 |-> tok2],
-                !.declined[s] = {}, !.asked[s] = {}, !.sentInVisit[s] = FALSE,
+                !.declined[s] = {}, !.asked[s] = {}, !.sentInVisit[s] = FALSE, !.pasTaint = FALSE,
                 \* a request still unanswered when the station takes a new token was abandoned (an unexpected telegram
                 \* ended the wait): 'at most one of reply / time-out per request'
                 !.outstanding[s] = -1,
@@ -182,12 +182,12 @@ OnTx(rs, e) ==
       moveOn == k = "token" /\ cls = "PassSupervision" /\ ~retry /\ (d # s \/ selfGiveUp)
       gd == IF d \in St THEN rs.grant[d] ELSE NoGrant
       c11t == <<
-        <<"C11.max3", retry => rs.pas.n + 1 <= 3>>,
+        <<"C11.max3", (retry /\ ~rs.pasTaint /\ rs.unread = 0) => rs.pas.n + 1 <= 3>>,
         <<"C11.immediate", (retry /\ ~single /\ d \in St /\ d \in rs.online) => ~(gd.pending /\ gd.just /\ gd.inring /\ gd.froms = {s} /\ s = rs.pub[d].ps)>>,
-        <<"C11.drop", (moveOn /\ rs.pas.by = s) => rs.pas.to \notin ToSet(rs.pub[s].las)>>,
+        <<"C11.drop", (moveOn /\ rs.pas.by = s /\ ~rs.pasTaint /\ rs.unread = 0) => rs.pas.to \notin ToSet(rs.pub[s].las)>>,
         \* "repeats the pass at most twice if nothing is heard, THEN removes the silent successor": the successor is
         \* given up only after the pass and both repetitions stayed unanswered (three offers)
-        <<"C11.patience", (moveOn /\ rs.pas.by = s) => rs.pas.n >= 3>>,
+        <<"C11.patience", (moveOn /\ rs.pas.by = s /\ ~rs.pasTaint /\ rs.unread = 0) => rs.pas.n >= 3>>,
         <<"C11.heard", TRUE>> >>
       c11o == <<
         <<"C12.successor", (passOn /\ ~single /\ rs.expectSucc[s] # -1) => rs.expectSucc[s] = d>>,
@@ -238,6 +238,9 @@ OnTx(rs, e) ==
       (* ---- state update *)
       rs1 == [rs EXCEPT !.last = [by |-> s, t0 |-> e.t0, t1 |-> e.t1, b |-> b, app |-> rs.appsent[s]],
                         !.rogue = @ \/ rs.unread > 0, !.selfOffer[s] = FALSE, !.selfSeen = -1,
+                        \* telegrams still unread in the PHY buffer will be acted on later: what the wire shows and what the
+                        \* station has seen differ, the supervision episode cannot be counted from the wire
+                        !.pasTaint = @ \/ rs.unread > 0,
                         !.unasked[s] = IF endsVisit THEN [a \in 0..3 |-> IF a \in rs.asked[s] \/ a >= napp THEN 0 ELSE @[a] + 1] ELSE @]
       \* heard watch: any transmission by someone else within tsl after a pass
       rs2 == IF rs.hw.by # -1 /\ rs.hw.by # s /\ gap < cfg.tsl /\ ~rs.hw.heard THEN [rs1 EXCEPT !.hw.heard = TRUE] ELSE rs1
@@ -251,7 +254,7 @@ OnTx(rs, e) ==
                            ELSE LET keep == v.open /\ v.claim /\ v.gappolls = 0 /\ ~v.tok2 IN
                                 [NewVisit(cnt, s, keep, keep, e.t1) EXCEPT !.holder = s])
                      ELSE LET pas1 == IF retry THEN [rs.pas EXCEPT !.n = @ + 1] ELSE [by |-> s, to |-> d, n |-> 1]
-                              a == [cnt EXCEPT !.rogue = (rs.unread > 0), !.pas = pas1, !.expectSucc[s] = -1, !.hw = [by |-> s, to |-> d, heard |-> FALSE],
+                              a == [cnt EXCEPT !.rogue = (rs.unread > 0), !.pas = pas1, !.expectSucc[s] = -1, !.hw = [by |-> s, to |-> d, heard |-> FALSE, t |-> e.t1],
                                                !.holder = d, !.visit[s].open = FALSE]
                           IN IF d \in St
                              THEN NewVisit([a EXCEPT !.offered[d] = @ \cup {s}, !.grant[d] = Offer(rs, d, s)], d, FALSE, FALSE, e.t1)
@@ -283,7 +286,12 @@ OnEnvTx(rs, e) ==
                         !.selfSeen = IF k = "token" /\ Sa(b) \in St /\ rs.unread = 0 THEN Sa(b) ELSE -1,
                         !.envSince = @ + 1,
                         !.goodTokens = 0,
-                        !.hw = IF @.by # -1 /\ gap < rs.cfg.tsl /\ ~@.heard THEN [@ EXCEPT !.heard = TRUE] ELSE @]
+                        \* a scripted peer "is heard" only with a well-formed telegram sent by the successor itself
+                        !.hw = IF @.by # -1 /\ gap < rs.cfg.tsl /\ ~@.heard /\ k # "junk" /\ e.st = @.to /\ ~("hidden" \in DOMAIN e)
+                               THEN [@ EXCEPT !.heard = TRUE] ELSE @,
+                        \* whatever a scripted peer sends while a pass is supervised ends the episode the monitor can count
+                        \* (it cannot know whether the station took it for the successor, for noise, or did not read it yet)
+                        !.pas = NoPass, !.pasTaint = TRUE]
       rs2 == IF k # "token" THEN rs1
              ELSE LET d == Da(b) sa == Sa(b)
                       w == RotWitness(rs1, sa, d, e.t0)
@@ -303,7 +311,9 @@ OnPoll(rs, e) ==
   LET s == e.st cfg == rs.cfg
       judged == ~rs.disturbed
       hwme == rs.hw.by = s /\ rs.hw.heard
-      heardOk == hwme => ~(rs.hw.to \in ToSet(e.pre.las) /\ rs.hw.to \notin ToSet(e.post.las))
+      \* (only while the pass could still be under supervision: three slot times; a later change of the ring view
+      \* has other causes, e.g. somebody's claim token)
+      heardOk == (hwme /\ e.t <= rs.hw.t + 4 * cfg.tsl) => ~(rs.hw.to \in ToSet(e.pre.las) /\ rs.hw.to \notin ToSet(e.post.las))
       becomesReady == ~e.pre.ready /\ e.post.ready
       r == rs.rot[s]
       claimable == e.t - Max2(rs.last.t1, rs.since[s]) >= Tto(cfg, s) - cfg.us
